@@ -778,6 +778,19 @@ def gen_c06(ctx):
         prec = PRECS[i % 4]
         c = sing_case(rng, prec, ctx.quick, rng.choice(['gssv', 'gssvx']), kind='zerocols')
         out.append(({'variant': 'plain', 'prec': prec}, c))
+    # the converse: NONsingular matrices with a column whose every entry is tiny (subnormal, but with a finite reciprocal) must
+    # not be reported singular: info > 0 is reserved for exactly zero pivots
+    NT = 600 if ctx.quick else 8000
+    for i in range(NT):
+        prec = PRECS[i % 4]
+        n = rng.choice([4, 6, 9, 14, 20])
+        lo = -1074 if prec in 'dz' else -149; fmin = -1022 if prec in 'dz' else -126
+        c = {'cmd': rng.choice(['gssv', 'gstrf']), 'fam': rng.choice(['band', 'grid', 'tree', 'rand']), 'n': n, 'dens': round(min(1.0, 3.0 / n), 3), 'seed': rng.randrange(1, 1 << 30),
+             # integers 1..3 times 2^(emin-1): below the smallest normal number, reciprocal still finite
+             'vals': rng.choice(['ones', 'int']), 'dom': 'col', 'tinycol': rng.randrange(n), 'tinyexp': fmin - 1,
+             'np': rng.choice([1, 2, 4]), 'ord': rng.choice([0, 1, 2, 3]), 'w': rng.choice([1, 2, 4]), 'relax': rng.choice([1, 2, 4]), 'maxsup': 8, 'rowblk': 200, 'colblk': 100,
+             'nrhs': 1, 'stype': 'nc', 'oracle': 0, 'kind': 'tiny-nonsingular', 'shape': 0, 'kary': 2, 'bl': 1, 'bu': 1}
+        out.append(({'variant': 'plain', 'prec': prec}, c))
     for i in range(N):
         prec = rng.choice(PRECS)
         c = sing_case(rng, prec, ctx.quick, rng.choice(['gssv', 'gssvx']))
@@ -800,8 +813,8 @@ def cov_c06(ctx, recs):
         if 0 < res.get('info', 0) <= res.get('n', 0): rep[r['case'].get('kind')] += 1
     return {'singular_kinds': dict(k), 'reported_through_info': dict(rep)}
 
-PROPS['C06'] = dict(gen=gen_c06, relevant=('C06|', 'C07|info-range', 'C01|info-range'), counters=('nrhs', 'first_deficient'), batch=20, coverage_extra=cov_c06,
-                    nontrivial=lambda r: 0 < (r.get('result') or {}).get('info', 0) <= (r.get('result') or {}).get('n', 0),
+PROPS['C06'] = dict(gen=gen_c06, relevant=('C06|', 'C07|info-range', 'C01|info-range', 'C01|info-nonzero'), counters=('nrhs', 'first_deficient'), batch=20, coverage_extra=cov_c06,
+                    nontrivial=lambda r: 0 < (r.get('result') or {}).get('info', 0) <= (r.get('result') or {}).get('n', 0) or r['case'].get('kind') == 'tiny-nonsingular',
                     rule='both drivers (ASan build one case per process + plain build) on singular inputs: stored-zero column/row, structurally empty column/row, isolated Hall violators (h columns meeting only h-1 rows), '
                     'isolated rank-1 +-1 blocks (exact cancellation whatever the pivot order), non-isolated Hall violators (outcome free, only safety asserted); distinct = sha1(case); non-trivial = 0<info<=n returned; '
                     'oracle: returns normally, 0<info<=n, B unchanged (simple) / X sentinel intact and B scaled only as reported (expert), perm_c bijection, L/U walkable and destroyable, '
@@ -1022,7 +1035,7 @@ def rand_ops(rng, length):
     have = True
     for _ in range(length - 1):
         if have:
-            o = rng.choice(['R0', 'R1', 'R1', 'S0', 'S1', 'S2', 'D'])
+            o = rng.choice(['R0', 'R1', 'R1', 'S0', 'S1', 'S2', 'D', 'P0', 'P1'])      # P: first factorization (refact = NO) that asks for pivot re-use
         else:
             o = 'F'
         if o == 'D': have = False
@@ -1204,11 +1217,15 @@ def gen_c17(ctx):
     rng = ctx.rng
     out = []
     N = 900 if ctx.quick else 8000
-    seqs = ['F,S0,D', 'F,R1,S1,R0,S0,D', 'V', 'E', 'V1', 'E1', 'X', 'V,E,V1,E1,X,F,S0,D', 'F,D,F,R0,D', 'E2', 'Q,E2,F,S0,D', 'E3', 'E4', 'E3,E4,E', 'E3,V,E1', 'E5', 'E5,E', 'V,E5']
+    seqs = ['F,S0,D', 'F,R1,S1,R0,S0,D', 'V', 'E', 'V1', 'E1', 'X', 'V,E,V1,E1,X,F,S0,D', 'F,D,F,R0,D', 'E2', 'Q,E2,F,S0,D', 'E3', 'E4', 'E3,E4,E', 'E3,V,E1', 'E5', 'E5,E', 'V,E5', 'E6', 'E6,E', 'E']
     for i in range(N):
         prec = rng.choice(PRECS)
         c = hist_base(rng, ctx.quick, nmax=30)
         c['ops'] = rng.choice(seqs)
+        if c['ops'] in ('E', 'V', 'E,V', 'E6') and rng.random() < 0.5:
+            # extreme magnitudes (values times 2^e): norms that overflow to Inf or underflow; the call may report info = n+1 or succeed
+            c['escale'] = rng.choice([1021, 1022, -1040, 1000, -1000]) if True else 0
+            c['dom'] = 'row'; c['fam'] = rng.choice(['band', 'grid']); c['bl'] = 1; c['bu'] = 1; c.pop('dens', None)
         if 'E5' in c['ops']:
             c['dom'] = 'row'        # symmetric mode with threshold 0 is only meaningful when diagonal pivots stay nonzero
             if c['fam'] in ('rand',): c['fam'] = 'grid'; c.pop('dens', None)
